@@ -650,6 +650,8 @@ def gen_lean(M, classified):
     L.append("import Cppcheck.Model.ExcFunnel")
     L.append("namespace Cppcheck.Gen.ExceptionFunnel")
     L.append("open Cppcheck.ExcFunnel")
+    L.append("-- the tables are only ever evaluated by the kernel (`decide +kernel`); no code is generated for them")
+    L.append("noncomputable section")
     L.append("")
     L.append("/-- type index -> C++ type -/")
     L.append("def typeNames : List String := [" + ", ".join(json.dumps(t) for t in M.tlist) + "]")
@@ -672,22 +674,33 @@ def gen_lean(M, classified):
         chunks.append("sites%d" % (i // per))
     L.append("def sites : List Site := " + " ++ ".join(chunks))
     L.append("")
-    # rows
-    rrows = []
+    # rows: callers outside try blocks as one base-8192 number per callee, protected / guarded edges as structured rows
+    if len(M.fids) >= 8191:
+        raise Unrecognised("more than 8190 functions: the row encoding needs a wider digit")
+    codes, prows = [], []
     for u in M.fids:
         es = M.edges.get(u)
         if not es:
             continue
         plain = sorted(set(M.fidx[e[0]] for e in es if not e[1] and not e[2]))
         prot = sorted(set((M.fidx[e[0]], e[1], e[2]) for e in es if e[1] or e[2]))
-        ps = ", ".join("⟨%d, %s, [%s]⟩" % (c, lean_ctx(M, hls), ", ".join(str(M.tidx[b]) for b in bl)) for (c, hls, bl) in prot)
-        rrows.append("⟨%d, [%s], [%s]⟩" % (M.fidx[u], ", ".join(map(str, plain)), ps))
+        if plain:
+            n = 0
+            for d in reversed([M.fidx[u] + 1] + [c + 1 for c in plain]):
+                n = n * 8192 + d
+            codes.append(hex(n))
+        if prot:
+            ps = ", ".join("⟨%d, %s, [%s]⟩" % (c, lean_ctx(M, hls), ", ".join(str(M.tidx[b]) for b in bl)) for (c, hls, bl) in prot)
+            prows.append("⟨%d, [], [%s]⟩" % (M.fidx[u], ps))
     chunks = []
-    per = 250
-    for i in range(0, len(rrows), per):
-        L.append("def rows%d : List Row := [\n  %s]" % (i // per, ",\n  ".join(rrows[i:i + per])))
-        chunks.append("rows%d" % (i // per))
-    L.append("def rows : List Row := " + " ++ ".join(chunks))
+    per = 400
+    for i in range(0, len(codes), per):
+        L.append("def rowCodes%d : List Nat := [\n  %s]" % (i // per, ",\n  ".join(codes[i:i + per])))
+        chunks.append("rowCodes%d" % (i // per))
+    L.append("def rowCodes : List Nat := " + " ++ ".join(chunks))
+    L.append("/-- calls inside try blocks / calls whose callee precondition the translator established -/")
+    L.append("def protRows : List Row := [\n  %s]" % ",\n  ".join(prows))
+    L.append("def rows : List Row := rowCodes.map decodeRow ++ protRows")
     L.append("")
     L.append("def entries : List Fn := [" + ", ".join(str(M.fidx[e]) for e in M.entries) + "]")
     L.append("def prog : Prog := ⟨hier, sites, rows, entries⟩")
@@ -718,6 +731,7 @@ def gen_lean(M, classified):
         L.append("def %s : Funnel := ⟨%s, [%s]⟩" % (nm, json.dumps(f["name"]), ", ".join("(%s, %s)" % (lean_handler(M, h), acts[a]) for h, a in f["handlers"])))
     L.append("def funnels : List Funnel := [" + ", ".join("funnel_" + f["name"].replace(".", "_") for f in M.funnels) + "]")
     L.append("")
+    L.append("end")
     L.append("end Cppcheck.Gen.ExceptionFunnel")
     return "\n".join(L) + "\n"
 
